@@ -101,8 +101,17 @@ def run_params(case):
         n_tx0, n_rx0, n_log0 = len(link.tx), len(link.rx_log), len(dev.param_log)
         put0 = len(cf.param.param_updater.request_queue.put_log)
         calls = {'param': [], 'group': [], 'all': []}
+        box_cb = {}
         names = ['%s.%s' % (p['group'], p['name']) for p in toc]
         for i, p in enumerate(toc):
+            if i % 3 == 0:
+                # a one-shot listener registered before the permanent one: it takes itself off the list from inside its call
+                def once(n, v, p=p, box=[]):
+                    if not box:
+                        box.append(1)
+                        cf.param.remove_update_callback(group=p['group'], name=p['name'], cb=box_cb[(p['group'], p['name'])])
+                box_cb[(p['group'], p['name'])] = once
+                cf.param.add_update_callback(group=p['group'], name=p['name'], cb=once)
             cf.param.add_update_callback(group=p['group'], name=p['name'], cb=lambda n, v: calls['param'].append((s.now, n, v)))
         for g in sorted(set(p['group'] for p in toc)):
             cf.param.add_update_callback(group=g, name=None, cb=lambda n, v: calls['group'].append((s.now, n, v)))
